@@ -95,10 +95,13 @@ PROPS["C06"] = {
     "rule": ("Scenario = 4-40 adversarial keys (paths differing by one byte/trailing slash/case, query order, same URI on several hosts, GET/HEAD twins) on caches of size 8/16/24 so that shards collide and evict, "
              "mixed request order, completions, purges. Oracle = every delivered response echoes the client's own (method, host, request-URI) and carries the serial of its own fetch or of the key's stored response. "
              "Non-trivial = at least one eviction and at least one hit or waiter. TestC06Concurrent (real goroutines): 2-12 near-identical keys forced into 1-2 LRU shards of a cache of 16..51200 entries, "
-             "4-16 goroutines looking them up for 30-120 ms (get-or-create, Get, store on fetch), optional concurrent purger: every hit must carry the response stored for the key that was asked for. evaluations counts lookups."),
+             "4-16 goroutines looking them up for 30-120 ms (get-or-create, Get, store on fetch), optional concurrent purger: every hit must carry the response stored for the key that was asked for. evaluations counts lookups. "
+             "TestC06Store (engine P): the kill/restart histories of C08 on real badger stores, judged for C06: the URIs of keys 10-19/20-29/30-39 extend those of keys 1/2/3 (proper prefixes), two keys may be longer than a badger key can be (65 100 shared bytes), a second server with its own cache, directory and upstream answers the same URLs; every response must be the one produced for its own (method, Host, URI) through its own server."),
     "assumptions": _SIM_ASSUME + ["the dispatcher's lookup has no yield point; it is exercised statistically by TestC06Concurrent and by the C20 workload under the race detector"],
     "jobs": [_sim("TestC06", 1000, 30000),
-             {"engine": "unit", "test": "TestC06Concurrent", "quick": {"shards": 8, "checks": 20, "timeout": 400, "shrinktime": "5s"}, "thorough": {"shards": 16, "checks": 600, "timeout": 3400, "shrinktime": "20s"}}],
+             {"engine": "unit", "test": "TestC06Concurrent", "quick": {"shards": 8, "checks": 20, "timeout": 400, "shrinktime": "5s"}, "thorough": {"shards": 16, "checks": 600, "timeout": 3400, "shrinktime": "20s"}},
+             {"engine": "proc", "needs_pike": True, "test": "TestC06Store", "env": {"VERIF_PORT_BASE": "2000", "VERIF_PORT_SPAN": "400"},
+              "quick": {"shards": 8, "checks": 2, "timeout": 600, "shrinktime": "45s"}, "thorough": {"shards": 16, "checks": 25, "timeout": 3400, "shrinktime": "120s"}}],
 }
 PROPS["C07"] = {
     "level": "exploration",
